@@ -630,6 +630,35 @@ static carquet_status_t load_dictionary_page_mmap(
 }
 
 /* ============================================================================
+ * Helper: positioned read on the shared file handle
+ * ============================================================================
+ *
+ * All column readers of a file reader share one FILE*. The batch reader loads
+ * pages of different columns from several OpenMP worker threads, so the seek
+ * and the read that depends on it must not be separated by another worker's
+ * seek on the same stream.
+ *
+ * Returns the number of bytes read; *seek_failed tells a failed seek apart.
+ */
+static size_t file_read_at(FILE* file, long offset, void* buffer, size_t size,
+                           bool* seek_failed) {
+    size_t bytes_read = 0;
+    bool failed = false;
+#ifdef _OPENMP
+    #pragma omp critical(carquet_shared_file)
+#endif
+    {
+        if (fseek(file, offset, SEEK_SET) != 0) {
+            failed = true;
+        } else {
+            bytes_read = fread(buffer, 1, size, file);
+        }
+    }
+    *seek_failed = failed;
+    return bytes_read;
+}
+
+/* ============================================================================
  * Helper: Load dictionary page (fread path)
  * ============================================================================
  */
@@ -642,15 +671,15 @@ static carquet_status_t load_dictionary_page_fread(
     FILE* file = file_reader->file;
     const parquet_column_metadata_t* col_meta = reader->col_meta;
 
-    /* Seek to dictionary page */
-    if (fseek(file, col_meta->dictionary_page_offset, SEEK_SET) != 0) {
+    /* Seek to dictionary page and read page header */
+    uint8_t header_buf[256];
+    bool seek_failed = false;
+    size_t header_read = file_read_at(file, (long)col_meta->dictionary_page_offset,
+                                      header_buf, sizeof(header_buf), &seek_failed);
+    if (seek_failed) {
         CARQUET_SET_ERROR(error, CARQUET_ERROR_FILE_SEEK, "Failed to seek to dictionary");
         return CARQUET_ERROR_FILE_SEEK;
     }
-
-    /* Read page header */
-    uint8_t header_buf[256];
-    size_t header_read = fread(header_buf, 1, sizeof(header_buf), file);
     if (header_read < 8) {
         CARQUET_SET_ERROR(error, CARQUET_ERROR_FILE_READ, "Failed to read dictionary header");
         return CARQUET_ERROR_FILE_READ;
@@ -669,21 +698,22 @@ static carquet_status_t load_dictionary_page_fread(
         return CARQUET_ERROR_INVALID_PAGE;
     }
 
-    /* Seek past header and read page data */
-    if (fseek(file, col_meta->dictionary_page_offset + (long)header_size, SEEK_SET) != 0) {
-        CARQUET_SET_ERROR(error, CARQUET_ERROR_FILE_SEEK, "Failed to seek past dict header");
-        return CARQUET_ERROR_FILE_SEEK;
-    }
-
-    /* Allocate and read compressed data */
+    /* Allocate and read compressed data (located right after the header) */
     uint8_t* compressed = malloc(page_header.compressed_page_size);
     if (!compressed) {
         CARQUET_SET_ERROR(error, CARQUET_ERROR_OUT_OF_MEMORY, "Failed to allocate compressed buffer");
         return CARQUET_ERROR_OUT_OF_MEMORY;
     }
 
-    if (fread(compressed, 1, page_header.compressed_page_size, file) !=
-        (size_t)page_header.compressed_page_size) {
+    size_t data_read = file_read_at(file,
+        (long)col_meta->dictionary_page_offset + (long)header_size,
+        compressed, (size_t)page_header.compressed_page_size, &seek_failed);
+    if (seek_failed) {
+        free(compressed);
+        CARQUET_SET_ERROR(error, CARQUET_ERROR_FILE_SEEK, "Failed to seek past dict header");
+        return CARQUET_ERROR_FILE_SEEK;
+    }
+    if (data_read != (size_t)page_header.compressed_page_size) {
         free(compressed);
         CARQUET_SET_ERROR(error, CARQUET_ERROR_FILE_READ, "Failed to read dictionary data");
         return CARQUET_ERROR_FILE_READ;
@@ -1004,16 +1034,16 @@ static carquet_status_t load_next_page_fread(
         }
     }
 
-    /* Seek to data page */
+    /* Seek to data page and read page header */
     int64_t data_offset = reader->data_start_offset;
-    if (fseek(file, data_offset + reader->current_page, SEEK_SET) != 0) {
+    uint8_t header_buf[256];
+    bool seek_failed = false;
+    size_t header_read = file_read_at(file, (long)(data_offset + reader->current_page),
+                                      header_buf, sizeof(header_buf), &seek_failed);
+    if (seek_failed) {
         CARQUET_SET_ERROR(error, CARQUET_ERROR_FILE_SEEK, "Failed to seek to data page");
         return CARQUET_ERROR_FILE_SEEK;
     }
-
-    /* Read page header */
-    uint8_t header_buf[256];
-    size_t header_read = fread(header_buf, 1, sizeof(header_buf), file);
     if (header_read < 8) {
         CARQUET_SET_ERROR(error, CARQUET_ERROR_FILE_READ, "Failed to read page header");
         return CARQUET_ERROR_FILE_READ;
@@ -1032,21 +1062,22 @@ static carquet_status_t load_next_page_fread(
         return CARQUET_ERROR_INVALID_PAGE;
     }
 
-    /* Seek past header and read page data */
-    if (fseek(file, data_offset + reader->current_page + (long)header_size, SEEK_SET) != 0) {
-        CARQUET_SET_ERROR(error, CARQUET_ERROR_FILE_SEEK, "Failed to seek past header");
-        return CARQUET_ERROR_FILE_SEEK;
-    }
-
-    /* Allocate and read compressed data */
+    /* Allocate and read compressed data (located right after the header) */
     uint8_t* compressed = malloc(page_header.compressed_page_size);
     if (!compressed) {
         CARQUET_SET_ERROR(error, CARQUET_ERROR_OUT_OF_MEMORY, "Failed to allocate compressed buffer");
         return CARQUET_ERROR_OUT_OF_MEMORY;
     }
 
-    if (fread(compressed, 1, page_header.compressed_page_size, file) !=
-        (size_t)page_header.compressed_page_size) {
+    size_t data_read = file_read_at(file,
+        (long)(data_offset + reader->current_page) + (long)header_size,
+        compressed, (size_t)page_header.compressed_page_size, &seek_failed);
+    if (seek_failed) {
+        free(compressed);
+        CARQUET_SET_ERROR(error, CARQUET_ERROR_FILE_SEEK, "Failed to seek past header");
+        return CARQUET_ERROR_FILE_SEEK;
+    }
+    if (data_read != (size_t)page_header.compressed_page_size) {
         free(compressed);
         CARQUET_SET_ERROR(error, CARQUET_ERROR_FILE_READ, "Failed to read page data");
         return CARQUET_ERROR_FILE_READ;
